@@ -47,6 +47,9 @@ def generate(rng, n, tier, stats):
         if fam in ('mono', 'nd'):
             kind = rng.choice(['i', 'f']); dec = rng.random() < 0.5; ln = rng.randint(0, 5)
             labs = mono_axis(rng, ln, kind, dec)
+            if ln >= 2 and rng.random() < 0.1:
+                # monotonic, not strictly: one label repeated (both copies lie in the bounding box when the label does)
+                j_ = rng.randrange(ln); labs = labs[:j_] + [labs[j_]] + labs[j_:]; stats['repeated_label']['yes'] += 1
             bs = bounds_for(rng, labs)
             lo, hi = rng.choice(bs), rng.choice(bs)
             stats['axis_len'][ln] += 1; stats['direction']['dec' if dec else 'inc'] += 1
@@ -139,7 +142,8 @@ def coq_case(c, res):
 
 # ---------------------------------------------------------------- oracle
 def is_mono(labs):
-    return all(b > a for a, b in zip(labs, labs[1:])) or all(b < a for a, b in zip(labs, labs[1:]))
+    # monotonic, increasing or decreasing, a repeated label allowed (a constant axis of two or more labels has no direction: not generated)
+    return all(b >= a for a, b in zip(labs, labs[1:])) or all(b <= a for a, b in zip(labs, labs[1:]))
 
 def spec_positions(labs, kind, lo, hi, step):
     """positions the property says a[lo:hi:step] selects, or 'IndexError'"""
